@@ -457,24 +457,26 @@ PROPS.update({
         level_text='Lean corollaries: for attribute-free items the documented rule proved in C01/C06/C07/C10/C11 is the standard derive\'s rule; L2: twin programs (same definition under derive_ex and under derive) over a shape grammar incl. empty enums, unsized tails, raw identifiers, lifetimes, const parameters, parameter defaults; all values / pairs, ten format specs, clone_from over all pairs; the compile-on-every-shape part is decided by rustc, not by a theorem',
     ),
     'C13': dict(
-        theorems=[(CMP + 'C20', ['DX.introduced_names_reserved', 'DX.makeIdent_shape', 'DX.helper_free_of_field_type',
+        theorems=[(CMP + 'C13Hyg', ['DX.attr_output_hygienic', 'DX.derive_output_hygienic', 'DX.hyg_makeIdent', 'DX.absPath_anchored', 'DX.kind_paths_rooted']), (CMP + 'C20', ['DX.introduced_names_reserved', 'DX.makeIdent_shape', 'DX.helper_free_of_field_type',
                                  'DX.expandSelf_no_self']),
                   ('DeriveExModel.Props.Tables', ['DX.trait_table_model'])],
-        l1=[('all', 3000, 60000), ('cmpN', 2000, 40000)],
-        labels=r'^e\d+:',
-        kinds=('panic', 'nondet', 'parse'),
+        l1=[('all', 3000, 60000), ('cmpN', 2000, 40000), ('impl', 1000, 20000)],
+        labels=r'^e\d+:|^impl',
+        # the hygiene theorem speaks about every token of every template: any token disagreement breaks its tie to the code
+        kinds=('panic', 'nondet', 'parse', 'tokens', 'tokens-body', 'count'),
         extra=extra_rustc(l2gen.gen_c13_case, 900, 12000),
-        level_text='partial: rustc is the judge. Proved (Lean): the names the templates introduce next to user-chosen names are reserved (`__`-prefixed) and per-field binders keep that prefix; nested helper items never mention the field type; every trait / method the expansion refers to is reached through an absolute ::core path (table regenerated from the expander and re-proved). Validated, not proved: that this rule set is complete - a grammar of well-typed items is compiled under a hostile-name dictionary (every binder name of the expansion, prelude and core names, raw keywords) in a plain scope, a scope that glob-imports shadowing definitions, and #![no_std]',
+        level_text='partial: rustc is the judge of name resolution. Proved (Lean, for every item and argument list): every token the expander writes literally is punctuation, a keyword, a primitive type, a literal, a `__`-reserved name or one of three block-local names; all other generated identifiers are segments of absolute `::core::..` paths, member names or attribute contents (provenance-carrying tokens, attr_output_hygienic / derive_output_hygienic); per-field binders keep the reserved prefix; nested helper items never mention the field type. L1 ties every token to the implementation; L2 compiles a well-typed grammar under a hostile-name dictionary in four scopes (incl. a blanket trait offering every method name the generated code calls)',
         level_note='Trusted: rustc as the oracle; the generator of well-typed programs (bin/l2gen.py); the rule set is validated against rustc, not proved complete.',
     ),
     'C20': dict(
-        theorems=[(CMP + 'C20', ['DX.helper_free_of_field_type', 'DX.expandSelf_no_self', 'DX.cmp_generics_self_expanded',
+        theorems=[(CMP + 'C13Hyg', ['DX.attr_output_hygienic', 'DX.derive_output_hygienic']), (CMP + 'C20', ['DX.helper_free_of_field_type', 'DX.expandSelf_no_self', 'DX.cmp_generics_self_expanded',
                                  'DX.thisTy_no_self', 'DX.eq_conjuncts_parenthesised', 'DX.empty_match_by_value',
                                  'DX.introduced_names_reserved']),
                   (CMP + 'C05', ['DX.trait_error_iff_misuse', 'DX.valid_use_accepted'])],
-        l1=[('all', 3000, 60000), ('cmpN', 2000, 40000)],
-        labels=r'^e\d+:',
-        kinds=('panic', 'nondet', 'parse'),
+        l1=[('all', 3000, 60000), ('cmpN', 2000, 40000), ('impl', 1000, 20000)],
+        labels=r'^e\d+:|^impl',
+        # the hygiene theorem speaks about every token of every template: any token disagreement breaks its tie to the code
+        kinds=('panic', 'nondet', 'parse', 'tokens', 'tokens-body', 'count'),
         extra=extra_rustc(l2gen.gen_c20_case, 900, 15000),
         level_text='partial: rustc is the judge. Proved (Lean): the rule set R1-R5 the emitted templates obey (reserved generic names; helper items free of the field type; Self-expanded generics in the free Eq-assertion function, and expand_self leaves no Self behind; parenthesised && operands; by-value scrutinee for arm-less matches) and that derive_ex answers exactly documented misuse with an error of its own (C05). Validated, not proved: completeness of the rule set - a dedicated grammar of well-typed inputs (every trait list x shapes incl. empty / single-variant enums x generics with bounds, defaults, where-clauses mentioning Self x by/key on first / middle / last and generic fields x both entry points) is compiled metadata-only under #![deny(warnings)]; any diagnostic is a violation',
         level_note='Trusted: rustc as the oracle; the generator of well-typed programs (bin/l2gen.py); the rule set is validated against rustc, not proved complete.',
